@@ -1,5 +1,5 @@
 From Coq Require Import List NArith Arith.
-From SK Require Import lib.LGraph lib.Mono model.C11_Model proof.C11_Aut proof.C11_WL proof.C11_Dedup proof.C11_Main.
+From SK Require Import lib.LGraph lib.Mono model.C11_Model proof.C11_Aut proof.C11_WL proof.C11_Dedup proof.C11_Main proof.C11_Comp.
 Import ListNotations.
 
 (** Vocabulary (definitions in proof/C11_Aut.v, written out here for the reader):
@@ -73,6 +73,34 @@ Theorem C11_orbits_exact :
     (forall u, In u (node_ids g) -> exists o, In o (a_orbits (analyze fn fe g)) /\ In u o).
 Proof. exact orbits_exact_all. Qed.
 Print Assumptions C11_orbits_exact.
+
+(** Clause 2 for every graph, connected or not: the reported orbits partition the node set; for a disconnected graph
+    two nodes share an orbit IFF they lie in one component and an automorphism of that component (induced subgraph)
+    maps one to the other — component swaps excluded, as the code documents.  Needs [wf] (the components are the
+    classes of the connectivity relation of lib/Reach.v, pairwise disjoint: C11_components below). *)
+Theorem C11_orbits_partition :
+  forall (fn : nlab -> N) (fe : elab -> N) (g : graph), wf g ->
+    let O := a_orbits (analyze fn fe g) in
+    (forall u, In u (node_ids g) -> exists o, In o O /\ In u o) /\
+    (forall o u, In o O -> In u o -> In u (node_ids g)) /\
+    (forall o1 o2 u, In o1 O -> In o2 O -> In u o1 -> In u o2 -> o1 = o2) /\
+    NoDup O /\
+    ((1 < length (components g))%nat ->
+       forall o u v, In o O -> In u o ->
+         (In v o <-> exists c, In c (components g) /\ In u c /\ same_orbit fn fe (induced_sub g c) u v)).
+Proof. exact orbits_partition_all. Qed.
+Print Assumptions C11_orbits_partition.
+
+(** [components g] (nx.connected_components): every member is the set of nodes connected to one of the nodes
+    (Reach.conn over the neighbour lists), members are pairwise disjoint and cover the nodes. *)
+Theorem C11_components :
+  forall g : graph, wf g ->
+    (forall c, In c (components g) ->
+       exists u, In u (node_ids g) /\ forall x, In x c <-> Reach.conn (nbrs g) [u] x) /\
+    pairwise_disjoint (components g) /\
+    (forall u, In u (node_ids g) -> exists c, In c (components g) /\ In u c).
+Proof. exact components_spec. Qed.
+Print Assumptions C11_components.
 
 (** Clause 2, second sentence (the fast estimate).  After any number [k] of WL-1 sweeps (AutoEst max_iter), every
     automorphism that preserves the labels the estimate was given keeps the colour of every node — component swaps
